@@ -26,7 +26,9 @@ pub fn exec(t: &[&str]) -> Option<String> {
     }
 }
 
-fn check<T: Decodable + Encodable + PartialEq + std::fmt::Debug>(o: &mut Out, r: &mut Rng, x: &T, ty: &str, fam: &str) {
+fn check<T: Decodable + Encodable + PartialEq + std::fmt::Debug>(o: &mut Out, r: &mut Rng, x: &T, ty: &str, fam: &str) { check_m(o, r, x, ty, fam, true) }
+/// `model == false`: a type the `c01_dec` model has no decoder for — the direct oracles only
+fn check_m<T: Decodable + Encodable + PartialEq + std::fmt::Debug>(o: &mut Out, r: &mut Rng, x: &T, ty: &str, fam: &str, model: bool) {
     let mut w = Vec::new();
     let len = x.consensus_encode(&mut w).unwrap();
     let id = format!("c01_dec {} {}", ty, hex(&w));
@@ -47,8 +49,26 @@ fn check<T: Decodable + Encodable + PartialEq + std::fmt::Debug>(o: &mut Out, r:
     o.direct(deserialize_partial::<T>(&ws).map(|(y, c)| &y == x && c == w.len()).unwrap_or(false), "C02: partial parse with suffix", format!("c01_dec {} {}", ty, hex(&ws)), "?".into(), format!("consumed {}", w.len()));
     o.stat(&format!("{}.{}", ty, fam));
     // correspondence: the model decodes the library's encoding (plus suffix) to the same re-encoding / count / length
+    if !model { return; }
     o.op(id, true);
     o.op(format!("c01_dec {} {}", ty, hex(&ws)), true);
+}
+/// Family "addresses": the consensus codec of `Address` (every network and kind) through the direct oracles, and its layout
+/// computed here: length byte | tag | spend | view | [payment id] | first four bytes of Keccak-256 of everything before
+fn addresses(o: &mut Out, r: &mut Rng) {
+    use monero::{Address, Network, PublicKey}; use monero::util::address::PaymentId;
+    for net in [Network::Mainnet, Network::Testnet, Network::Stagenet] { for kind in 0..3 { for _ in 0..3 {
+        let mut vk = || PublicKey::from_private_key(&monero::PrivateKey::from_scalar(curve25519_dalek::scalar::Scalar::from_bytes_mod_order(r.arr32())));
+        let (s, v) = (vk(), vk());
+        let pid: [u8; 8] = r.bytes(8).try_into().unwrap();
+        let a = match kind { 0 => Address::standard(net, s, v), 1 => Address::subaddress(net, s, v), _ => Address::integrated(net, s, v, PaymentId(pid)) };
+        check_m(o, r, &a, "address", "addresses", false);
+        let blob = a.as_bytes(); let mut body = blob[..1].to_vec(); body.extend_from_slice(s.as_bytes()); body.extend_from_slice(v.as_bytes()); if kind == 2 { body.extend_from_slice(&pid); }
+        let c = monero::cryptonote::hash::keccak_256(&body); body.extend_from_slice(&c[..4]);
+        let mut want = vec![body.len() as u8]; want.extend_from_slice(&body);
+        let got = monero::consensus::encode::serialize(&a);
+        o.direct(got == want, "C02: the consensus encoding of an address is length | tag | spend | view | [payment id] | checksum of all of it", format!("address {:?} kind {} {}", net, kind, hex(&blob)), hex(&got), hex(&want));
+    } } }
 }
 
 fn shape_of(version: u64, nin: usize, ring: usize, nout: usize, rct: RctType, nbp: usize) -> gen::Shape {
@@ -229,6 +249,7 @@ pub fn run(o: &mut Out, tier: &str, seed: u64) {
     for st in ["", "crypto", "h\u{e9}llo", "\u{1f980}\u{1f980}", "\u{3b2}eta \u{2211} sum"] { check(o, &mut r, &st.to_string(), "string", "string"); }
     for len in [126usize, 127, 128, 129, 16383, 16384] { let st: String = (0..len).map(|i| if i % 5 == 0 { '\u{e9}' } else { 'x' }).collect(); check(o, &mut r, &st, "string", "string"); }
     let hh = Hash(r.arr32()); check(o, &mut r, &hh, "key", "fixed");
+    addresses(o, &mut r);
     // extra sub-fields (component records of the transaction extra): boundary sizes of every kind, alone and with a suffix
     crate::c16::run_subfield_rt(o, &mut r, if tier == "thorough" { 4000 } else { 400 });
     // arrays `[T; 8 | 32 | 64]` of VARIABLE-WIDTH elements (the generic array encoder is public; the crate itself only uses fixed-width
